@@ -62,6 +62,7 @@ PROBES: List[List[str]] = [
     ["for i in range(2):", "    pass", "r = 5"],
     ["while q > 100:", "    pass", "r = 6"],
     ["if q > 2:", "    global r", "    r = 8"],
+    ['"doc"; q = q + 1'], ["import time; q += 1"], ["pass; led.on()"], ["led.on(); pass"], ["from os import path; r = 5"], ['"a"; "b"'], ["print(q); q += 1"], ["...; r = 5"], ["global q; q = 9"],
     ["sv = Servo(10)", "sv.write(30)"], ["mon.write(f\"{q}\") ; q += 1"], ["r += 1  # trailing"], ["    "], ["# only a comment"], ["q = 3 \\", "    + 4"], ["mon.write(", "    q)"], ["y = [", "    7,", "    8]"],
 ]
 OBSERVE = ["mon.write(q)", "mon.write(r)", "mon.write(y[0])", "mon.write(len(y))", "mon.write(led.get_brightness())"]
@@ -173,10 +174,13 @@ CORPUS: Dict[str, str] = {
     "devices": HEAD + 'mon = SerialMonitor(9600)\nrgb = RGBLed(3, 5, 6)\nlcd = LCD(i2c_addr=39)\ndef hit():\n    mon.write("hit")\nbtn = Button(7, on_click=hit)\nlcd.line(0, "a # not a comment")\nwhile True:\n    if btn.is_pressed():\n        rgb.set_color(1, 2, 3)\n    else:\n        rgb.off()\n    lcd.write(0, 1, "x", align="right")\n',
     "strings": HEAD + 'mon = SerialMonitor(9600)\ns = "a#b"\nmon.write(s)\nmon.write("it\'s # fine")\nmon.write(f"{s}: # {1 + 2}")\nw = \'q"#\'\nmon.write(w + "\\\\")\nwhile True:\n    mon.write("#")\n',
     "lists": HEAD + 'mon = SerialMonitor(9600)\nitems = [1, 2, 3]\nitems.append(4)\nfor i in range(len(items)):\n    mon.write(items[i])\nwhile True:\n    items.remove(items[0])\n    items.append(7)\n    mon.write(items[-1])\n',
+    "constants": HEAD + 'mon = SerialMonitor(9600)\na = analog_read("A0")\nv1 = 200\nw = [1, 0, 1]\nfor i in range(2):\n    w.append(5)\n    v1 = v1 + 1\nmon.write(len(w))\nsleep(v1)\nv2 = 50\nif a > 3:\n    v2 = 120\nelse:\n    w.append(7)\nsleep(v2)\nmon.write(len(w))\nv3 = 5\nk = 0\nwhile k < 2:\n    k += 1\n    v3 = v3 * 2\nsleep(v3)\nv4 = 9\nwhile True:\n    sleep(v4)\n    if a > 5:\n        v4 = 7\n    mon.write(len(w))\n    w.append(1)\n',
     "setup_only": HEAD + 'mon = SerialMonitor(9600)\nled = Led(4)\nled.blink(5, times=2)\na, b = 1, 2\na, b = b, a\nmon.write(a - b)\n',
 }
 
 COMMENT = "# note: while True: if x: else: def f(): led.on()"
+# comment texts that look like something the line-oriented parser reacts to
+COMMENTS = [COMMENT, '# target("COM9")', '# bench 2 used target("COM4") before', "# x = 1; y = 2", "# import os", '# "unterminated', "# it's", "# def f():", "# end }", "# \\", "# sleep(5)", "#", "# elif x:", "# except:", "#!shebang", "# -*- coding: utf-8 -*-"]
 
 
 def _indents(lines: Sequence[str]) -> List[str]:
@@ -206,6 +210,30 @@ def single_edits(src: str, tier: str) -> Iterator[Tuple[str, str]]:
         if lines[i].strip():
             yield f"trailing@{i}", "\n".join(lines[:i] + [lines[i] + "  " + COMMENT] + lines[i + 1:]) + "\n"
             yield f"trailing-tight@{i}", "\n".join(lines[:i] + [lines[i] + "#c"] + lines[i + 1:]) + "\n"
+            for ci, text in enumerate(COMMENTS[1:]):
+                yield f"trailing-text{ci}@{i}", "\n".join(lines[:i] + [lines[i] + "  " + text] + lines[i + 1:]) + "\n"
+    # comment lines with every text at the indentation of the following / preceding line
+    for i in range(n + 1):
+        near = {len(l) - len(l.lstrip(" ")) for l in lines[max(0, i - 1): i + 1] if l.strip()} | {0}
+        for col in sorted(near):
+            for ci, text in enumerate(COMMENTS[1:]):
+                yield f"comment-text{ci}@{i}:{col}", "\n".join(lines[:i] + [" " * col + text] + lines[i:]) + "\n"
+    # redundant parentheses: block header conditions, right-hand sides, return values, single call arguments
+    import re as _re
+    for i in range(n):
+        m = _re.match(r"^(\s*)(if|elif|while) (.+):\s*$", lines[i])
+        if m:
+            for form in (f"{m.group(1)}{m.group(2)} ({m.group(3)}):", f"{m.group(1)}{m.group(2)}({m.group(3)}):", f"{m.group(1)}{m.group(2)} ( {m.group(3)} ) :"):
+                yield f"paren-header@{i}", "\n".join(lines[:i] + [form] + lines[i + 1:]) + "\n"
+        m = _re.match(r"^(\s*)([A-Za-z_][\w, ]*) (=|\+=) (.+)$", lines[i])
+        if m:
+            yield f"paren-rhs@{i}", "\n".join(lines[:i] + [f"{m.group(1)}{m.group(2)} {m.group(3)} ({m.group(4)})"] + lines[i + 1:]) + "\n"
+        m = _re.match(r"^(\s*)return (.+)$", lines[i])
+        if m:
+            yield f"paren-return@{i}", "\n".join(lines[:i] + [f"{m.group(1)}return ({m.group(2)})"] + lines[i + 1:]) + "\n"
+        m = _re.match(r"^(\s*)([\w.]+)\(([^(),]+)\)$", lines[i])
+        if m:
+            yield f"paren-arg@{i}", "\n".join(lines[:i] + [f"{m.group(1)}{m.group(2)}(({m.group(3)}))"] + lines[i + 1:]) + "\n"
     # blank / whitespace-only line at every index
     for i in range(n + 1):
         for blank in ("", " ", "    ", "        ", "\t"):
